@@ -61,6 +61,91 @@ def force_token(I, m, value):
     return names
 
 
+def run_rule_E(chk, cfgname, m):
+    """E -- the encrypt-only / decrypt-only / combined types of one family compute the same function for the same key:
+    for every pair of types connected by a From conversion and every direction both implement, the public
+    encrypt (decrypt) entry point, run on the instance `new(k)` builds from one symbolic key and on one symbolic block,
+    stores identical output terms -- under each forced CPU-feature outcome."""
+    from ops import flatten
+    n = 0
+    new_roots = {info['pub_path']: inst for nm, info, inst in m.roots_of(op='new')}
+    ops_roots = {d: {info['pub_path']: inst for nm, info, inst in m.roots_of(op=d)} for d in ('enc', 'dec')}
+    parent = {}
+
+    def find(x):
+        while parent.setdefault(x, x) != x:
+            x = parent[x]
+        return x
+    for op in ('from', 'from_ref'):
+        for name, info, inst in m.roots_of(op=op):
+            parent[find(info['pub_path'])] = find(info['src'])
+    fams = {}
+    for x in list(parent):
+        fams.setdefault(find(x), set()).add(x)
+    with equiv.TermMode():
+        for root, members in sorted(fams.items()):
+            members = sorted(m_ for m_ in members if m_ in new_roots)
+            for d in ('enc', 'dec'):
+                having = [m_ for m_ in members if m_ in ops_roots[d]]
+                if len(having) < 2:
+                    continue
+                # reference: the combined type (implements both directions) if there is one
+                ref = sorted(having, key=lambda t: (not (t in ops_roots['enc'] and t in ops_roots['dec']), t))[0]
+                for token in (True, False):
+                    outs = {}
+                    skip = False
+                    for t in having:
+                        engine._INTERPS.clear()
+                        I = engine.mk_interp(m, 60_000_000)
+                        forced = force_token(I, m, token)
+                        if not forced and not token:
+                            skip = True
+                            break
+                        fnew = m.fn(new_roots[t])
+                        st = State()
+                        args = engine.default_args(I, st, fnew)
+                        s1, inst_v = engine.run(I, new_roots[t], args, st)
+                        if s1 != 'ok':
+                            outs[t] = ('fc', 'new: %s %s' % (s1, str(inst_v)[:150]))
+                            continue
+                        froot = m.fn(ops_roots[d][t])
+                        I.fresh += 1
+                        cobj = ('P', 'cipher', I.fresh)
+                        st2 = State()
+                        st2.mem[cobj] = inst_v
+                        inout_ty = m.ty(froot['mir']['locals'][2])
+                        block_ty = [I.types[fd['t']]['t'] for fd in inout_ty['variants'][0]['f'] if I.types[fd['t']]['k'] == 'ptr'][0]
+                        I.entry_state = st2
+                        x = equiv.sym_block(I, block_ty, 'x')
+                        I.entry_state = None
+                        a1, out1 = equiv.inout_arg(I, st2, froot, x, 'e')
+                        s2, r = engine.run(I, ops_roots[d][t], [Ptr(cobj, (), None, None, None, None, False), a1], st2)
+                        if s2 != 'ok':
+                            outs[t] = ('fc', '%s: %s %s' % (d, s2, str(r)[:150]))
+                            continue
+                        outs[t] = ('ok', [b.term for b in (flatten(I, st2.mem[out1], block_ty) or [])])
+                    if skip:
+                        continue
+                    for t in having:
+                        if t == ref:
+                            continue
+                        n += 1
+                        key = '%s|%s~%s|E|%s|token=%s' % (cfgname, t, ref, d, token)
+                        a, b = outs.get(ref), outs.get(t)
+                        if a is None or b is None or a[0] != 'ok' or b[0] != 'ok':
+                            chk.fail_closed('E-same-function', key, '%s / %s: %s' % (ref, t, (a if a and a[0] != 'ok' else b)))
+                            continue
+                        bad = [i for i, (p, q) in enumerate(zip(a[1], b[1])) if p is None or q is None or p is not q]
+                        if bad or len(a[1]) != len(b[1]) or not a[1]:
+                            chk.violation('E-same-function', key,
+                                          '%s and %s built from the same key do not %srypt a block to the same value (detection result %s): byte %s: %s' % (
+                                              t, ref, d, token, bad[0] if bad else '?',
+                                              T.first_diff(b[1][bad[0]], a[1][bad[0]]) if bad else 'shape'))
+                        else:
+                            chk.ok('E-same-function', key, dict(types=[t, ref], direction=d, detection=token, bytes=len(a[1])) if n % 6 == 1 else None)
+    return n
+
+
 def run_rule(chk, cfgname, m):
     n = 0
     new_roots = {info['pub_path']: inst for nm, info, inst in m.roots_of(op='new')}
